@@ -226,8 +226,13 @@ def run_case(case, ctx):
         return obs
     power = power[ant_idx * nchan_h:(ant_idx + 1) * nchan_h]
     tot = tot[ant_idx * nchan_h:(ant_idx + 1) * nchan_h]
+    if c['start_chan'] == 0 and nchan_h > 1:
+        # the recorded channel that straddles DC never hosts the tone (property) but carries the requantiser's DC spur,
+        # which can outweigh a chirp whose power is spread over many fine bins: it is not a candidate
+        tot = tot.copy()
+        tot[0, :] = 0.0
     ch_f, k_f = np.unravel_index(int(np.argmax(tot)), tot.shape)
-    snr = float(tot.max() / max(np.median(tot), 1e-300))
+    snr = float(tot.max() / max(np.median(tot[tot > 0]) if np.any(tot > 0) else 0.0, 1e-300))
     obs.nontrivial = snr >= 20 and (c['start_chan'] > 0 or not c['ascending'])
 
     def header_freq(ch, k):
